@@ -42,6 +42,13 @@ The loss is confined to ONE pattern, K1 = "a pusher's slot claim lands on a bloc
   the state alone (the claimed block is not reachable from the tail) and of the trace (a clear's successful detach CAS
   lies between the pusher's tail load / installing CAS and its claim: the signature of K-C05-K1);
 * `k1_straggler_is_K1` — the witness of `k1_straggler_lost` has exactly one K1 step, so the hypothesis is needed;
+* `failed_detach_delivers_nothing_and_loses_nothing` / `detach_cas_all_or_nothing` — the detaching CAS of `clear_with`
+  either takes the WHOLE chain or (the tail changed since the load) nothing: then the call returns `cleared []` and blocks,
+  tail, visible values, delivered values and completed pushes are unchanged (`failed_detach_witness`: a clear that returns
+  nothing although pushes had completed before it began; no clause of C05 is violated, the values stay visible);
+* `delivered_once_tail_was_null` — the positive side: every schedule without a K1 step — what was published before a
+  moment at which the tail was null (a successful detach, or an empty bucket) has been delivered as soon as no clear is
+  walking any more;
 * `snapshot_complete_any` — ANY programs (clears included), every schedule: a `data_with` returns every value that was
   published and reachable from the tail when it loaded the tail; `is_empty_complete_any` — same scope: an `is_empty`
   answers `false` if a published value was reachable from the tail when it loaded the tail.
@@ -628,6 +635,292 @@ example :
     ((run (init 2 progs) s1).threads[2]?.map (·.pc)) = some .eLoadTail
     ∧ pubCount 3 (run (init 2 progs) s1) = 1 ∧ pubCount 1 (run (init 2 progs) s1) = 0
     ∧ ((run (init 2 progs) (s1 ++ [2, 2])).threads[2]?.map (·.results)) = some [.empty false] := by decide
+
+/-! ### a clear whose detach CAS fails (`bkt.clear.cas`)
+
+`clear_with` loads the tail and detaches the chain with `compare_exchange(loaded, null)`.  When another thread changed
+the tail between the two (a pusher's block hand-over installed a new tail, or another clear detached the chain) the CAS
+fails and `clear_with` returns without having called its callback.  No clause of C05 is violated by that: the values
+stay where they were, "visible to every later snapshot read until a clear takes it".  What holds is stated exactly. -/
+
+theorem flatMap_setAt_of_eq {α β : Type} (f : α → List β) : ∀ (l : List α) (i : Nat) (a x : α),
+    l[i]? = some x → f a = f x → (setAt l i a).flatMap f = l.flatMap f := by
+  intro l
+  induction l with
+  | nil => intro i a x h; simp at h
+  | cons y ys ih =>
+    intro i a x h hf
+    cases i with
+    | zero =>
+      simp only [List.getElem?_cons_zero, Option.some.injEq] at h
+      subst h
+      simp only [setAt, List.flatMap_cons, hf]
+    | succ n =>
+      simp only [List.getElem?_cons_succ] at h
+      simp only [setAt, List.flatMap_cons, ih n a x h hf]
+
+theorem map_setAt_of_eq {α β : Type} (f : α → β) : ∀ (l : List α) (i : Nat) (a x : α),
+    l[i]? = some x → f a = f x → (setAt l i a).map f = l.map f := by
+  intro l
+  induction l with
+  | nil => intro i a x h; simp at h
+  | cons y ys ih =>
+    intro i a x h hf
+    cases i with
+    | zero =>
+      simp only [List.getElem?_cons_zero, Option.some.injEq] at h
+      subst h
+      simp only [setAt, List.map_cons, hf]
+    | succ n =>
+      simp only [List.getElem?_cons_succ] at h
+      simp only [setAt, List.map_cons, ih n a x h hf]
+
+/-- what a snapshot would see depends on the blocks and the tail only -/
+theorem chainData_congr (s s' : Sys) (hb : s'.blocks = s.blocks) : ∀ (fuel : Nat) (o : Option Nat),
+    chainData s' fuel o = chainData s fuel o := by
+  intro fuel
+  induction fuel with
+  | zero => intro o; rfl
+  | succ n ih =>
+    intro o
+    cases o with
+    | none => rfl
+    | some i => simp only [chainData, getBlock, hb, ih]
+
+/-- **a failed detach delivers nothing and loses nothing.**  Any state, any thread that stands at the detaching CAS of
+    its `clear_with` (`cCas old`: it loaded `old` as the tail) while the tail is no longer `old`: its next step ends the
+    call with the result `cleared []` (the callback was never called: the accumulator is not even consulted), and the
+    bucket is untouched — same blocks, same tail, hence the same values visible to a snapshot, the same values delivered
+    so far, the same completed pushes.  Whatever was in the bucket (including pushes that completed before this
+    `clear_with` began) is still there for the next read. -/
+theorem failed_detach_delivers_nothing_and_loses_nothing (s : Sys) (tid : Nat) (t : Thread) (old : Nat)
+    (ht : s.threads[tid]? = some t) (hpc : t.pc = .cCas old) (hfail : s.tail ≠ some old) :
+    let s' := step s tid
+    s'.threads[tid]? = some (t.advance (.cleared []))
+    ∧ s'.blocks = s.blocks ∧ s'.tail = s.tail
+    ∧ visible s' = visible s ∧ delivered s' = delivered s ∧ completedPushes s' = completedPushes s := by
+  intro s'
+  have hstep : s' = { s with threads := setAt s.threads tid (t.advance (.cleared [])) } := by
+    simp only [s', step, ht, stepThread, hpc, if_neg hfail]
+  have hlt : tid < s.threads.length := by
+    rcases Nat.lt_or_ge tid s.threads.length with h | h
+    · exact h
+    · rw [List.getElem?_eq_none h] at ht; cases ht
+  have hb : s'.blocks = s.blocks := by rw [hstep]
+  have htl : s'.tail = s.tail := by rw [hstep]
+  refine ⟨?_, hb, htl, ?_, ?_, ?_⟩
+  · rw [hstep]
+    simp only [getElem?_setAt, hlt, and_self, if_true]
+  · unfold visible
+    rw [hb, htl]
+    exact chainData_congr s s' hb _ _
+  · unfold delivered
+    rw [hstep]
+    exact flatMap_setAt_of_eq _ _ _ _ _ ht (by simp [Thread.advance])
+  · unfold completedPushes
+    rw [hstep]
+    simp only
+    rw [map_setAt_of_eq _ _ _ _ _ ht (by simp [Thread.advance, List.countP_append])]
+
+/-- the same seen from the successful side: the CAS of `clear_with` either detaches the WHOLE chain (tail := null, the
+    walk starts at the loaded block) or — exactly when the tail is no longer the loaded one — does nothing; there is no
+    third outcome (no partial drain) -/
+theorem detach_cas_all_or_nothing (s : Sys) (tid : Nat) (t : Thread) (old : Nat)
+    (ht : s.threads[tid]? = some t) (hpc : t.pc = .cCas old) :
+    (s.tail = some old ∧ (step s tid).tail = none ∧ (step s tid).blocks = s.blocks
+        ∧ ((step s tid).threads[tid]?.map (·.pc)) = some (.cQuiesced old))
+    ∨ (s.tail ≠ some old ∧ (step s tid).tail = s.tail ∧ (step s tid).blocks = s.blocks
+        ∧ (step s tid).threads[tid]? = some (t.advance (.cleared []))) := by
+  have hlt : tid < s.threads.length := by
+    rcases Nat.lt_or_ge tid s.threads.length with h | h
+    · exact h
+    · rw [List.getElem?_eq_none h] at ht; cases ht
+  by_cases h : s.tail = some old
+  · left
+    refine ⟨h, ?_, ?_, ?_⟩ <;>
+      simp only [step, ht, stepThread, hpc, if_pos h, getElem?_setAt, hlt, and_self, if_true, Option.map_some]
+  · right
+    have := failed_detach_delivers_nothing_and_loses_nothing s tid t old ht hpc h
+    exact ⟨h, this.2.2.1, this.2.1, this.1⟩
+
+/-- the failed detach on a concrete run (block size 2; the harness replays the shape on the real bucket with 64): pushes
+    1 and 2 have COMPLETED and fill the block before the clear begins; the clearer loads the tail; the pusher of 3 finds
+    the block full, installs a new tail and completes; the clearer's CAS fails: it returns `cleared []` although three
+    pushes had completed — two of them before it began — and all three values stay visible; no K1 step is involved and
+    the next clear delivers all of them -/
+theorem failed_detach_witness :
+    let progs : List (List Call) := [[.push 1, .push 2], [.push 3], [.clear, .clear]]
+    let pre := [0, 0, 0, 0, 0, 0, 0, 0]
+    let mid := [2, 2, 1, 1, 1, 1, 1, 1, 2]
+    let s1 := run (init 2 progs) pre
+    let s2 := run (init 2 progs) (pre ++ mid)
+    let s3 := run (init 2 progs) (pre ++ mid ++ [2, 2, 2, 2, 2, 2, 2, 2, 2, 2])
+    completedPushes s1 = 2 ∧ (s1.threads[2]?.map (·.pc)) = some .start
+    ∧ ((run (init 2 progs) (pre ++ [2, 2])).threads[2]?.map (·.pc)) = some (.cCas 0)
+    ∧ (s2.threads[2]?.map (·.results)) = some [.cleared []]
+    ∧ completedPushes s2 = 3 ∧ delivered s2 = [] ∧ visible s2 = [3, 1, 2]
+    ∧ stragglerClaims 2 progs (pre ++ mid) = 0
+    ∧ quiescent s3 = true ∧ delivered s3 = [3, 1, 2] ∧ visible s3 = [] := by decide
+
+/-! ### the positive side: once the tail has been null, everything published before is delivered
+
+The complement of the failed detach.  If at some moment after a push completed the bucket's tail was null — a clear
+detached the chain (its CAS succeeded) or found the bucket empty — then, as soon as no thread is inside a `clear_with`
+walk any more, that push has been handed to a clear callback.  (Schedules without a K1 step.) -/
+
+/-- published slots holding `v` in block `k` never decrease along a step -/
+theorem pubc_step_mono (v : Nat) (s : Sys) (tid k : Nat) :
+    pubc v (getBlock s k).cells ≤ pubc v (getBlock (step s tid) k).cells := by
+  rcases step_blk s tid k with ⟨hc, _⟩ | ⟨_, _, _, w, hc⟩ | ⟨_, j, hc⟩
+  · rw [hc]; exact Nat.le_refl _
+  · rw [hc]; simp [pubc, pubVals, List.filterMap_append]
+  · rw [hc]; exact pubc_publishCell v _ j
+
+theorem pubc_run_mono (v : Nat) (sched : List Nat) : ∀ (s : Sys) (k : Nat),
+    pubc v (getBlock s k).cells ≤ pubc v (getBlock (run s sched) k).cells := by
+  induction sched with
+  | nil => intro s k; exact Nat.le_refl _
+  | cons t ts ih =>
+    intro s k
+    simp only [run, List.foldl_cons]
+    exact Nat.le_trans (pubc_step_mono v s t k) (ih (step s t) k)
+
+/-- a block that is not reachable from the tail never becomes reachable again -/
+theorem gown_not_live (s : Sys) (own : Nat → Owner) (tid i : Nat) (h : own i ≠ .live) : gown s own tid i ≠ .live := by
+  unfold gown
+  cases hg : s.threads[tid]? with
+  | none => exact h
+  | some t =>
+    simp only
+    unfold gownT
+    cases hp : t.pc <;> simp only <;> try exact h
+    · split
+      · simp only
+        split
+        · intro c; cases c
+        · exact h
+      · exact h
+    · split
+      · intro c; cases c
+      · exact h
+
+theorem grun_not_live (sched : List Nat) : ∀ (s : Sys) (own : Nat → Owner) (i : Nat), own i ≠ .live →
+    (grun s own sched).2 i ≠ .live := by
+  induction sched with
+  | nil => intro s own i h; exact h
+  | cons t ts ih => intro s own i h; simp only [grun]; exact ih _ _ i (gown_not_live s own t i h)
+
+theorem sum_le_osum_read (f : Block → Nat) (hf0 : f newBlock = 0) (own : Nat → Owner) :
+    ∀ (bs1 bs2 : List Block) (k : Nat),
+    (∀ i, f ((bs1[i]?).getD newBlock) ≤ if isRead (own (k + i)) = true then f ((bs2[i]?).getD newBlock) else 0) →
+    (bs1.map f).sum ≤ osum f isRead own bs2 k := by
+  intro bs1
+  induction bs1 with
+  | nil => intro bs2 k _; exact Nat.zero_le _
+  | cons b bs ih =>
+    intro bs2 k h
+    have h0 := h 0
+    simp only [List.getElem?_cons_zero, Option.getD_some, Nat.add_zero] at h0
+    cases bs2 with
+    | nil =>
+      have hrest := ih [] (k + 1) (fun i => by
+        have := h (i + 1)
+        simp only [List.getElem?_cons_succ, List.getElem?_nil, Option.getD_none] at this ⊢
+        have e : k + (i + 1) = k + 1 + i := by omega
+        rw [e] at this; exact this)
+      simp only [List.getElem?_nil, Option.getD_none, hf0] at h0
+      simp only [osum, List.map_cons, List.sum_cons] at hrest ⊢
+      split at h0 <;> omega
+    | cons c cs =>
+      have hrest := ih cs (k + 1) (fun i => by
+        have := h (i + 1)
+        simp only [List.getElem?_cons_succ] at this ⊢
+        have e : k + (i + 1) = k + 1 + i := by omega
+        rw [e] at this; exact this)
+      simp only [List.getElem?_cons_zero, Option.getD_some] at h0
+      simp only [osum, List.map_cons, List.sum_cons]
+      omega
+
+theorem inRunningClears_nil (s : Sys) (h : ∀ (i : Nat) (t : Thread), s.threads[i]? = some t → claim t.pc = none) :
+    inRunningClears s = [] := by
+  unfold inRunningClears
+  rw [List.flatMap_eq_nil_iff]
+  intro t ht
+  obtain ⟨i, hi, e⟩ := List.getElem_of_mem ht
+  have := h i t (by rw [List.getElem?_eq_getElem hi, e])
+  simp [this]
+
+/-- **everything published before the tail was null is delivered once the clears have finished.**  ANY programs, any
+    block size, EVERY schedule `pre ++ m1 ++ m2` without a K1 step: if the tail is null after `pre ++ m1` (some clear
+    detached the chain after `pre`, or found it empty) and after `pre ++ m1 ++ m2` no thread is inside a `clear_with` walk,
+    then, value by value, the clears have delivered `v` at least as often as slots holding `v` were published when `pre`
+    ended (published slots = completed pushes: `completed_pushes_are_published`).  A FAILED detach is precisely a drain
+    that does not produce such a moment (`detach_cas_all_or_nothing`). -/
+theorem delivered_once_tail_was_null (B : Nat) (progs : List (List Call)) (pre m1 m2 : List Nat)
+    (hk : stragglerClaims B progs (pre ++ m1 ++ m2) = 0)
+    (hnull : (run (init B progs) (pre ++ m1)).tail = none)
+    (hidle : ∀ (i : Nat) (t : Thread), (run (init B progs) (pre ++ m1 ++ m2)).threads[i]? = some t → claim t.pc = none)
+    (v : Nat) :
+    pubCount v (run (init B progs) pre) ≤ (delivered (run (init B progs) (pre ++ m1 ++ m2))).count v := by
+  -- invariants at the end (no K1 step in the whole schedule)
+  obtain ⟨hg2, hk2, hr2⟩ := krun_inv2 (pre ++ m1 ++ m2) _ _ (init_ginv B progs) (init_gacc B progs) (init_kinv B progs)
+    (init_rpub B progs) hk
+  -- invariant at the moment the tail was null
+  have hgm := (grun_inv (pre ++ m1) _ _ (init_ginv B progs) (init_gacc B progs)).1
+  have hown2 : (grun (init B progs) own0 (pre ++ m1 ++ m2)).2
+      = (grun (grun (init B progs) own0 (pre ++ m1)).1 (grun (init B progs) own0 (pre ++ m1)).2 m2).2 := by
+    rw [grun_append (pre ++ m1) m2]
+  rw [grun_fst] at hg2 hk2 hr2 hgm
+  generalize hs2 : run (init B progs) (pre ++ m1 ++ m2) = s2 at *
+  generalize ho2 : (grun (init B progs) own0 (pre ++ m1 ++ m2)).2 = own2 at *
+  -- every block that existed when the tail was null is `read` at the end
+  have hread : ∀ i, i < (run (init B progs) (pre ++ m1)).blocks.length → own2 i = .read := by
+    intro i hi
+    obtain ⟨lb, _, hlive, hnone, _⟩ := hgm.live
+    have hlb := hnone hnull
+    have hnl : (grun (init B progs) own0 (pre ++ m1)).2 i ≠ .live := by
+      intro c
+      have := (hlive i).mp c
+      omega
+    have hnl2 : own2 i ≠ .live := by
+      rw [hown2]
+      exact grun_not_live m2 _ _ i hnl
+    cases ho : own2 i with
+    | live => exact absurd ho hnl2
+    | read => rfl
+    | det u =>
+      have hu := hk2.detex i u ho
+      have hcl := hg2.clr u _ (List.getElem?_eq_getElem hu)
+      rw [hidle u _ (List.getElem?_eq_getElem hu)] at hcl
+      exact absurd ho (hcl i)
+  -- what clears were handed = the published slots of the blocks marked `read`
+  have hD : (delivered s2).count v = osum (fun b => pubc v b.cells) isRead own2 s2.blocks 0 := by
+    have h1 := Dsum_split s2 v
+    rw [inRunningClears_nil s2 hidle] at h1
+    have h2 := hk2.eq v
+    have h3 := osum_read_eq_rsum v own2 s2.blocks 0 (fun i b hb ho => hr2 i b hb (by simpa using ho))
+    simp only [List.count_nil, Nat.add_zero] at h1
+    omega
+  rw [hD]
+  unfold pubCount needFrom
+  rw [List.drop_zero]
+  apply sum_le_osum_read (fun b => pubc v b.cells) rfl own2
+  intro i
+  simp only [Nat.zero_add]
+  have e1 : ∀ s : Sys, (s.blocks[i]?).getD newBlock = getBlock s i := fun s => rfl
+  rw [e1, e1]
+  have hmono1 := pubc_run_mono v m1 (run (init B progs) pre) i
+  rw [← run_append] at hmono1
+  have hmono2 := pubc_run_mono v m2 (run (init B progs) (pre ++ m1)) i
+  rw [← run_append, hs2] at hmono2
+  by_cases hi : i < (run (init B progs) (pre ++ m1)).blocks.length
+  · rw [hread i hi]
+    simp only [isRead, if_true]
+    omega
+  · have : getBlock (run (init B progs) (pre ++ m1)) i = newBlock := getBlock_of_ge _ i (by omega)
+    rw [this] at hmono1
+    have h0 : pubc v newBlock.cells = 0 := rfl
+    split <;> omega
 
 /-! ### source facts for the paths the step machine does not model in detail -/
 
